@@ -215,6 +215,13 @@ def special_histories(tier):
         for loc in ("server", "client", "both"):
             H.append([f"new {loc} memory {how} 100 2048", "req 0 1000 jar set:6b:76", "req 0 1009 jar", "req 0 1010 jar", "req 0 1019 jar",
                       "req 0 1020 jar", "req 0 1120 jar", "req 0 1121 jar"])
+    # periods that are not multiples of ten: the window ends between two seconds (T=25: no renewal at +2, renewal at +3)
+    for T in (15, 25, 101):
+        for loc in ("server", "client"):
+            k = T // 10
+            H.append([f"new {loc} memory 1 {T} 2048", "req 0 1000 jar set:6b:76", f"req 0 {1000 + k} jar", f"req 0 {1000 + T} jar",
+                      f"req 1 2000 jar set:6b:76", f"req 1 {2000 + k} jar", f"req 1 {2000 + T + 1} jar",
+                      f"req 2 3000 jar set:6b:76", f"req 2 {3000 + k + 1} jar", f"req 2 {3000 + T + 1} jar", f"req 2 {3000 + k + 1 + T + 1} jar"])
     # fixed: never rewritten when unchanged, deadline kept when changed, alive at the deadline, dead one later
     for loc in ("server", "client", "both"):
         for kind in ("memory", "files", "network"):
